@@ -1,7 +1,8 @@
 """Bounded stand-in / replay vehicle for C12 on the REAL elfi nodes (imported from the tree under analysis).
 
-distance family: elfi.Distance nodes over scalar + vector summaries (layouts s, v, sv, vs, ssv; vector width 2), batch sizes 1..3,
-  scipy metrics with and without extra arguments (minkowski p, seuclidean V, mahalanobis VI, weighted euclidean / minkowski w), two user
+distance family: elfi.Distance nodes over scalar + vector summaries (layouts s, v, sv, vs, ssv; vector width 2), batch sizes 1, 2, 3, 7,
+  scipy metrics with and without extra arguments (minkowski p, seuclidean V, mahalanobis VI, weighted euclidean / minkowski w, and cityblock, sqeuclidean,
+  canberra, braycurtis, cosine, correlation, hamming, chebyshev with a non-uniform w against scipy cdist(.., w=w)), two user
   callables; observed through node.generate(batch_size, with_values=<summary outputs>); oracle: the vector functions of scipy.spatial.distance
   applied to row i of the column-stacked summaries and the stacked observed summaries.  Also the constructor's raise rule.
 adaptive family: elfi.AdaptiveDistance; for every composition (ordered partition) of n <= NMAX rows into add_data calls the scale must be the
@@ -55,6 +56,15 @@ def _build(elfi, layout, Y):
     return m, sums
 
 
+WEIGHTED_METRICS = ['cityblock', 'sqeuclidean', 'canberra', 'braycurtis', 'cosine', 'correlation', 'hamming', 'chebyshev']   # string metrics outside the
+# euclidean / minkowski family that take a weight vector w; oracle: scipy.spatial.distance.cdist(row_i, observed, metric, w=w)
+
+
+def _cdist_oracle(metric, kw):
+    import scipy.spatial.distance as ssd
+    return lambda a, b: float(ssd.cdist(np.atleast_2d(a), np.atleast_2d(b), metric=metric, **kw)[0, 0])
+
+
 def _metric_cases(width, rs):
     import scipy.spatial.distance as ssd
     w = np.round(rs.rand(width) + .25, 3)
@@ -74,6 +84,7 @@ def _metric_cases(width, rs):
             ('minkowski', {'p': 1.5, 'w': w}, lambda a, b: ssd.minkowski(a, b, 1.5, w)),
             ('seuclidean', {'V': V}, lambda a, b: ssd.seuclidean(a, b, V)),
             ('mahalanobis', {'VI': VI}, lambda a, b: ssd.mahalanobis(a, b, VI)),
+            ] + [(mname, {'w': w}, _cdist_oracle(mname, {'w': w})) for mname in WEIGHTED_METRICS if width >= 2] + [
             ('callable-1d', {}, lambda a, b: float(np.abs(a - b).sum() + 2 * abs(a[0] - b[0]))),
             ('callable-2d', {}, lambda a, b: float(np.abs(a - b).max() + abs(a[-1] - b[-1])))]
 
@@ -90,7 +101,7 @@ def _jsonable(kw):
 
 def _close(a, b):
     a, b = np.asarray(a, float), np.asarray(b, float)
-    return a.shape == b.shape and bool(np.all(np.abs(a - b) <= TOL * (1 + np.abs(b))))
+    return a.shape == b.shape and bool(np.all((np.abs(a - b) <= TOL * (1 + np.abs(b))) | (np.isnan(a) & np.isnan(b))))
 
 
 def distance_case(elfi, layout, X, Y, metric, kw, oracle=None):
@@ -104,7 +115,8 @@ def distance_case(elfi, layout, X, Y, metric, kw, oracle=None):
                   'minkowski': lambda a, b: ssd.minkowski(a, b, kw.get('p', 2), kw.get('w')),
                   'seuclidean': lambda a, b: ssd.seuclidean(a, b, kw['V']), 'mahalanobis': lambda a, b: ssd.mahalanobis(a, b, kw['VI']),
                   'callable-1d': lambda a, b: float(np.abs(a - b).sum() + 2 * abs(a[0] - b[0])),
-                  'callable-2d': lambda a, b: float(np.abs(a - b).max() + abs(a[-1] - b[-1]))}[metric]
+                  'callable-2d': lambda a, b: float(np.abs(a - b).max() + abs(a[-1] - b[-1]))}
+        oracle = oracle[metric] if (metric in oracle and not (metric in WEIGHTED_METRICS and kw)) else _cdist_oracle(metric, kw)
     B = X.shape[0]
     with native.time_limit(20):
         m, sums = _build(elfi, layout, Y)
@@ -162,7 +174,7 @@ def run_distance(tier, seed, stop_first=True):
     cases = nontrivial = 0
     failures = []
     layouts = LAYOUTS
-    name, bound = 'distance-nodes-vs-scipy', 'layouts %s (vector width %d), batch sizes 1..3, 12 scipy metric/argument combinations + 2 callables, constructor raise rule' % (LAYOUTS, VW)
+    name, bound = 'distance-nodes-vs-scipy', 'layouts %s (vector width %d), batch sizes 1, 2, 3, 7, 12 scipy metric/argument combinations + %d further string metrics with a non-uniform w (width >= 2) + 2 callables, constructor raise rule' % (LAYOUTS, VW, len(WEIGHTED_METRICS))
     rule = 'non-trivial = a case with >= 2 columns (column order matters) or an extra metric argument'
     done = lambda: dict(name=name, bound=bound, rule=rule, cases=cases, nontrivial=nontrivial, failures=failures)
     n, fl = constructor_rule(elfi)
@@ -175,7 +187,7 @@ def run_distance(tier, seed, stop_first=True):
     for layout in layouts:
         width = _width(layout)
         mcases = _metric_cases(width, rs)
-        for B in (1, 2, 3):
+        for B in (1, 2, 3, 7):
             reps = 1 if tier == 'quick' else 3
             for _ in range(reps):
                 X = np.round(rs.randn(B, width) * 2, 3)
